@@ -22,6 +22,7 @@ const modPath = "github.com/herohde/morlock"
 var (
 	repoDir  = "/repo"
 	verifDir = "/verif"
+	harnessRoot = "/verif/harness"
 )
 
 type Obligation struct {
@@ -78,7 +79,7 @@ func hasTier(o *Obligation, tier string) bool {
 // ---------------- loading ----------------
 
 func harnessFiles(pkg string) []string {
-	dir := filepath.Join(verifDir, "harness", pkg)
+	dir := filepath.Join(harnessRoot, pkg)
 	ents, _ := os.ReadDir(dir)
 	var out []string
 	for _, e := range ents {
@@ -215,7 +216,7 @@ func buildOverlay(pkgs []string, replay bool) map[string][]byte {
 		}
 	}
 	// runtime replacement package
-	rt := filepath.Join(verifDir, "harness", "verifrt")
+	rt := filepath.Join(harnessRoot, "verifrt")
 	ents, _ := os.ReadDir(rt)
 	for _, e := range ents {
 		if strings.HasSuffix(e.Name(), ".go") {
@@ -459,6 +460,12 @@ func (ex *Exec) applyNoMerge() {
 // ---------------- main ----------------
 
 func main() {
+	if r := os.Getenv("GOSYM_REPO"); r != "" {
+		repoDir = r // scratch worktree of the repository (used when running against seeded changes)
+	}
+	if h := os.Getenv("GOSYM_HARNESS"); h != "" {
+		harnessRoot = h // snapshot of the harness directory (so that edits do not disturb a long run)
+	}
 	if len(os.Args) < 2 {
 		fmt.Fprintln(os.Stderr, "usage: gosym run|selftest ...")
 		os.Exit(2)
